@@ -856,7 +856,20 @@ func c13Run(t *testing.T, ops []c13Op, emit bool) *c13Result {
 				e.db.WaitForPendingChanges(t)
 				continue
 			}
+			var sdBefore *SyncData
+			if op.Kind == "put" || op.Kind == "del" {
+				if d := tr.docs[op.Doc]; d != nil && d.exists {
+					if sd, err := e.col.GetDocSyncData(e.ctx, c13DocName(op.Doc)); err == nil {
+						sdBefore = &sd
+					}
+				}
+			}
 			rev, err := e.do(tr, op)
+			if err == nil && rev != "" && emit {
+				if sdAfter, err2 := e.col.GetDocSyncData(e.ctx, c13DocName(op.Doc)); err2 == nil {
+					c13EmitDocHist(res, sdBefore, &sdAfter)
+				}
+			}
 			// every sequence reaches the channel caches before the next operation: no skipped sequences (assumption)
 			e.db.WaitForPendingChanges(t)
 			if err != nil {
@@ -979,11 +992,24 @@ func c13Run(t *testing.T, ops []c13Op, emit bool) *c13Result {
 					coq:  fmt.Sprintf("(CPeriods %s %s %d %s)", c13UserCoq(snap.User), c13RolesCoq(snap.Roles), ci+1, c13PairsCoq(pp)),
 					desc: map[string]any{"user": snap.User, "roles": snap.Roles, "channel": cname, "periods": pp}})
 				for _, d := range snap.Docs {
+					mentioned := false
+					for _, h := range d.Hist {
+						if h.Name == uint64(ci+1) {
+							mentioned = true
+						}
+					}
+					if !mentioned || len(pp) == 0 {
+						continue
+					}
 					sd, err := e.col.GetDocSyncData(e.ctx, c13DocName(int(d.ID)))
 					if err != nil {
 						continue
 					}
-					for _, sv := range []uint64{since.SafeSequence(), since.TriggeredBy} {
+					svs := []uint64{since.SafeSequence()}
+					if since.TriggeredBy != 0 {
+						svs = append(svs, since.TriggeredBy, since.TriggeredBy-1)
+					}
+					for _, sv := range svs {
 						was, err := col.wasDocInChannelPriorToRevocation(e.ctx, sd, c13DocName(int(d.ID)), cname, sv)
 						if err != nil {
 							continue
@@ -1118,6 +1144,48 @@ func c13Run(t *testing.T, ops []c13Op, emit bool) *c13Result {
 	}
 	res.nontri = sawRevoked || sawBackfill
 	return res
+}
+
+func c13DocEnts(es []ChannelSetEntry) []c13DocEnt {
+	var out []c13DocEnt
+	for _, e := range es {
+		id, ok := c13ChanID(e.Name)
+		if !ok {
+			continue
+		}
+		out = append(out, c13DocEnt{id, e.Start, e.End})
+	}
+	return out
+}
+
+// updateChannels / updateChannelHistory observed on one write: (active channels before, channels after, new sequence,
+// ChannelSet / ChannelSetHistory before and after)
+func c13EmitDocHist(res *c13Result, before, after *SyncData) {
+	var active, newc []uint64
+	var cs, h []c13DocEnt
+	if before != nil {
+		for c, rm := range before.Channels {
+			if rm == nil {
+				if id, ok := c13ChanID(c); ok {
+					active = append(active, id)
+				}
+			}
+		}
+		cs, h = c13DocEnts(before.ChannelSet), c13DocEnts(before.ChannelSetHistory)
+	}
+	for c, rm := range after.Channels {
+		if rm == nil {
+			if id, ok := c13ChanID(c); ok {
+				newc = append(newc, id)
+			}
+		}
+	}
+	sort.Slice(active, func(i, j int) bool { return active[i] < active[j] })
+	sort.Slice(newc, func(i, j int) bool { return newc[i] < newc[j] })
+	cs2, h2 := c13DocEnts(after.ChannelSet), c13DocEnts(after.ChannelSetHistory)
+	res.cases = append(res.cases, c13CoqCase{kind: "doc_history", nt: len(h2) > 0 || fmt.Sprint(active) != fmt.Sprint(newc),
+		coq: fmt.Sprintf("(CDocHist %s %s %d %s %s %s %s)", cqNList(active), cqNList(newc), after.Sequence, c13DocEntsCoq(cs), c13DocEntsCoq(h), c13DocEntsCoq(cs2), c13DocEntsCoq(h2)),
+		desc: map[string]any{"active_before": active, "channels_after": newc, "seq": after.Sequence, "channel_set_before": cs, "history_before": h, "channel_set_after": cs2, "history_after": h2}})
 }
 
 func c13SortPeriods(per []auth.GrantHistorySequencePair) []c13Pair {
